@@ -25,7 +25,9 @@ def sample_plans(n: int, seed: int) -> list[tuple[str, dict]]:
         out.append(("C13", {"property": "C13", "hashseed": 0, "ops": [{"op": "enum", "pid": "fx::c13::flat", "shard": [i, 400], "stride": 1}], "known": [".*"]}))
         fx = ["fx::c16::cf_nested", "fx::c16::outer", "fx::c16::resconv_nchw", "fx::c16::fn_boundary", "fx::c16::cf_scan", "fx::c16::net"]
         out.append(("C16", {"property": "C16", "hashseed": 0, "ops": [{"op": "enum", "pid": fx[i % len(fx)], "eqn_cap": 12, "fn_cap": 2, "seed": seed}]}))
+        out.append(("C16", {"property": "C16", "hashseed": 0, "ops": [{"op": "catalogue", "pid": "fx::c16cat::scan_rev_shared@top", "pre": ["fx::c16cat::scan_fwd_shared@top"]}, {"op": "catalogue", "pid": "fx::c16cat::scan_fwd_rev@fn"}, {"op": "enum", "pid": "fx::c16::f16_cast_chain", "eqn_cap": 12, "fn_cap": 2, "seed": seed, "all_modes": True}]}))
         reqs = [{"op": "convert", "pid": f"fx::c14::{x}"} for x in c14.FX]
+        reqs += [{"op": "convert", "pid": f"fx::c14::{n_}", "mut": st} for n_ in ("ublock_twins", "block_twins") for st in (0, 1, 2, 3)]
         p = c14.gen_run(seed, 1000 + i, reqs, 12)
         p["reference"] = {}
         out.append(("C14", p))
